@@ -47,7 +47,14 @@ def emitOne (line : String) : String :=
               | .switchOn _ keys => keys.any (fun k => k.isEmpty)
               | _ => false)
             | none => false)
+          -- a printed label that nothing in the same function jumps to is a Go compile error
+          let unusedLabel := P.any (fun r => match r.code with
+            | some c => c.any (fun i => match i with
+              | .label l => !(jumps c).contains l
+              | _ => false)
+            | none => false)
           pure (Json.mkObj [("id", id), ("rules", programJson P), ("nilCase", nilCase),
+            ("unusedLabel", unusedLabel),
             ("ruleNames", Json.arr (L.G.rules.map (fun r => Json.str r.name)).toArray)])
     match res with
     | .ok v => v.compress
